@@ -23,7 +23,7 @@
                                       object as they were, and all allocator invariants still hold.
      - C20_retention_bound_defrag /   the retention bound and the block count bounds also hold in every state of a history
        C20_block_count_bounds_defrag  that contains defragmentation runs (reachDL: ordinary calls between passes, pools with
-                                      MinBlockCount >= 0, BeginDefragPass on granularity-1 lists): a pass creates no
+                                      MinBlockCount >= 0, any bufferImageGranularity): a pass creates no
                                       block, completing a move frees through memoryBlockList.Free with its retention
                                       policy, everything else keeps used blocks used. *)
 From Coq Require Import ZArith List Lia.
